@@ -11,6 +11,7 @@ def _run(ctx):
     results = []
     gens = ["Gen_RpkiTree_thorough.cfg", "Gen_RpkiTree_thorough2.cfg"] if ctx.thorough else ["Gen_RpkiTree.cfg"]
     gens.append("Gen_RpkiTree_unsafe.cfg")
+    gens.append("Gen_RpkiTree_depth.cfg")
     total = 0
     for i, cfg in enumerate(gens):
         gen = lib.tlc(ctx, "gen%d" % i, "MC_GenRpkiTree.tla", cfg, workers=4, timeout=3000, count=False)
@@ -42,7 +43,7 @@ def _run(ctx):
                "point-level faults remove the point); non-trivial = faulty world with non-empty expected payload",
         "C06": "worlds with a Stale manifest/CRL or a Premature manifest at any CA x stale policy; oracle: under reject (and "
                "always for premature) the CA and its descendants contribute nothing, under warn/accept they are processed",
-        "C07": "shapes 'deep' (chain of 5 CAs, max-ca-depth 2/3/32) and 'loop' (certificates for ancestors' keys) x faults x "
+        "C07": "shapes 'deep' (chain of 5 CAs, max-ca-depth 2/3/32; and 0..5/32 given to Routinator through its command line and configuration file parser) and 'loop' (certificates for ancestors' keys) x faults x "
                "1/2/4 threads under a 60 s watchdog; oracle: terminates, nothing from beyond the depth limit or a repeated key, "
                "rest of the tree intact",
         "C08": "worlds with at least one rejected publication point, and the shape 'halves' with every pair of rejected "
